@@ -98,6 +98,9 @@ func (k msgServer) depositForBurn(
 	}
 
 	// burn coins
+	if err := sdk.ValidateDenom(burnToken); err != nil {
+		return 0, errors.Wrapf(types.ErrBurn, "invalid burn token: %s", err)
+	}
 	coin := sdk.NewCoin(burnToken, math.NewIntFromBigInt(amount.BigInt()))
 
 	err = k.bank.SendCoinsFromAccountToModule(ctx, fromAccAddress, types.ModuleName, sdk.NewCoins(coin))
